@@ -419,3 +419,32 @@ def proof_coverage(info, prop):
         "forbidden_keyword_hits": info.get("forbidden", []),
         "trusted_base": list(TRUSTED_BASE),
     }
+
+
+def proof_status(info, prop):
+    """List of reasons why the proof side of this run does not check (empty = all obligations discharged)."""
+    broken = []
+    if not info.get("translate_ok", True):
+        broken.append("translator could not regenerate coq/Gen (source shape changed): " + info.get("translate_log", "")[-800:])
+    if not info["coq_ok"]:
+        broken.append("coq build failed: " + info.get("coq_log", "")[-1500:])
+    elif not info["prop_ok"]:
+        broken.append("Properties/%s.v no longer checks: " % prop + info.get("prop_log", "")[-1500:])
+    if info.get("forbidden"):
+        broken.append("forbidden keyword in development: %s" % info["forbidden"])
+    return broken
+
+
+def conclude(ctx, info, cov, assumptions, proof_broken=None, searched_note=""):
+    """Standard ending: if a proof obligation is broken and the correspondence/search found no failing input,
+    report the violation with no-failing-input-found; then write evidence and print VIOLATION lines."""
+    if proof_broken is None:
+        proof_broken = proof_status(info, ctx.prop)
+    if proof_broken and not ctx.violations:
+        report(ctx, "proof-broken", "proof obligation no longer checks",
+               {"kind": "obligation", "no_failing_input_found": True, "broken": proof_broken,
+                "theorems": info["theorems"], "note": searched_note})
+    if proof_broken:
+        ctx.notes.append("proof obligations broken: %s" % proof_broken)
+        cov["discharged"] = 0
+    return finish(ctx, cov, assumptions)
